@@ -1,0 +1,6 @@
+//go:build !verif
+
+package datastore
+
+// verifManagerReady is a no-op unless built with the "verif" tag.
+func (m *repoManager) verifManagerReady(fresh bool) {}
